@@ -229,6 +229,7 @@ func runC18(r *Run) {
 		allQ = append(allQ, c18Q{"glob", p})
 	}
 
+	nestedWith := -1
 	emit := func(stack []int) {
 		var fss []fs.FS
 		var names []string
@@ -299,6 +300,30 @@ func runC18(r *Run) {
 		} else {
 			ov = vuego.NewOverlayFS(fss[0], fss[1:]...)
 		}
+		if nestedWith >= 0 {
+			// an overlay is a file system too: the stack so far becomes the upper layer of two further overlays, each with
+			// one more layer below; the first of them is queried after the second was built, and is the overlay of the
+			// stack followed by ITS layer
+			base := ov
+			a, b := nestedWith, (nestedWith+1+r.Rng.Intn(nShapes-1))%nShapes
+			pos := len(stack)
+			if pos > 2 {
+				pos = 2
+			}
+			ovA := vuego.NewOverlayFS(base, layerFS[pos][a])
+			_ = vuego.NewOverlayFS(base, layerFS[pos][b])
+			ov = ovA
+			names = append(names, fmt.Sprintf("l%d_%d", pos, a))
+			desc = append(desc, "nested: the layers above form one overlay; a sibling overlay over it was built afterwards")
+			hasNil = false
+			for _, f := range fss {
+				if f == nil {
+					hasNil = true
+				}
+			}
+			fss = append(fss, layerFS[pos][a])
+			r.Count("nested-overlay-shared-by-two")
+		}
 		// random order + a few repeats: one overlay instance answers the whole sequence
 		qs := append([]c18Q{}, allQ...)
 		for i := len(qs) - 1; i > 0; i-- {
@@ -352,10 +377,34 @@ func runC18(r *Run) {
 		for n := 0; n < 20000; n++ {
 			emit([]int{r.Rng.Intn(nShapes + 1), r.Rng.Intn(nShapes + 1), r.Rng.Intn(nShapes + 1)})
 		}
+		for n := 0; n < 5000; n++ {
+			nestedWith = r.Rng.Intn(nShapes)
+			switch n % 3 {
+			case 0:
+				emit([]int{r.Rng.Intn(nShapes + 1), r.Rng.Intn(nShapes + 1)})
+			case 1:
+				emit([]int{r.Rng.Intn(nShapes)})
+			default:
+				emit([]int{r.Rng.Intn(nShapes + 1), r.Rng.Intn(nShapes), r.Rng.Intn(nShapes + 1)})
+			}
+			nestedWith = -1
+		}
 		r.extra["exhaustive_up_to_layers"] = 2
 	} else {
 		for n := 0; n < 1500; n++ {
 			emit([]int{r.Rng.Intn(nShapes + 1), r.Rng.Intn(nShapes + 1)})
+		}
+		for n := 0; n < 300; n++ { // nested overlays: a stack of 1 or 2 layers shared as the upper layer of two overlays
+			nestedWith = r.Rng.Intn(nShapes)
+			switch n % 3 {
+			case 0:
+				emit([]int{r.Rng.Intn(nShapes + 1), r.Rng.Intn(nShapes + 1)})
+			case 1:
+				emit([]int{r.Rng.Intn(nShapes)})
+			default:
+				emit([]int{r.Rng.Intn(nShapes + 1), r.Rng.Intn(nShapes), r.Rng.Intn(nShapes + 1)})
+			}
+			nestedWith = -1
 		}
 		for n := 0; n < 700; n++ {
 			emit([]int{r.Rng.Intn(nShapes + 1), r.Rng.Intn(nShapes + 1), r.Rng.Intn(nShapes + 1)})
